@@ -473,7 +473,7 @@ def same_length_sibling(rng, data, words):
     import re as _re
 
     m = _re.search(rb"-b?xor (\d{1,3})", data)
-    if m and rng.random() < 0.7:
+    if m and rng.random() < 0.5:
         # same record layout, another key (or none: the operator is misspelt)
         old = m.group(1)
         new = {1: b"9", 2: b"42", 3: b"101"}[len(old)]
@@ -483,7 +483,7 @@ def same_length_sibling(rng, data, words):
         return out if len(out) == len(data) and out != data else None
     tokens = [t for t in (b"FromBase64String", b"Base64Decode", b"atob", b"replace", b"Replace", b"StrReverse", b"unescape", b"FromHexString",
                           b"CreateObject", b"powershell", b"chr", b"cmd", b"http") if t in data]
-    if tokens and rng.random() < 0.5:
+    if tokens and rng.random() < 0.8:
         # the same record with one call name misspelt: what the decoder for it finds changes, the length does not
         t = rng.choice(tokens)
         out = data.replace(t, t[:-1] + (b"q" if t[-1:] != b"q" else b"z"))
@@ -553,8 +553,8 @@ def gen_c09(seed, shipped, tier="quick"):
         filler = b"lorem ipsum dolor sit amet -- 0123456789 -- the quick brown fox\n"
         corpus[0] = corpus[0][:1500] + b"\n" + filler * ((1 << 20) // len(filler) + rng.randint(1, 400)) + corpus[0][:1500]
     sibling = None
-    if rng.random() < 0.35 and len(corpus[0]) < 100000:
-        if rng.random() < 0.5:
+    if rng.random() < 0.4 and len(corpus[0]) < 100000:
+        if rng.random() < 0.65:
             corpus[0] = record_input(rng, list(words) + list(hot))
         sib = same_length_sibling(rng, corpus[0], list(words) + list(hot))
         if sib is not None:
@@ -660,15 +660,16 @@ def gen_c09(seed, shipped, tier="quick"):
             ops.insert(rng.choice([0, 0, rng.randint(0, len(ops))]), ["new_other", oi, oe])
         if rng.random() < 0.15:
             ops.insert(0, ["import", rng.choice(MODULES)])  # a helper was imported from a decoder module first
-        if sibling is not None and rng.random() < 0.6:
+        if sibling is not None and rng.random() < 0.8:
             # fixed-width records processed one after the other, each buffer dropped before the next
             d = next(k[1] for k in keys if k[0] == sibling)
             order = [0, sibling] if rng.random() < 0.5 else [sibling, 0]
             seq = []
-            for _ in range(rng.randint(1, 3)):
-                for idx in order:
+            for rep in range(rng.randint(3, 5)):
+                # both orders occur: a stale verdict only shows when the buffer that lacks something comes first
+                for idx in (order if rep % 2 == 0 else order[::-1]):
                     seq.append(["scan_fresh", "s0", idx, d])
-                    if rng.random() < 0.7:
+                    if rng.random() < 0.5:
                         seq.append(["gc"])
             ops.extend(seq)
         if variants and rng.random() < 0.7:
